@@ -1,0 +1,44 @@
+//go:build verif
+// +build verif
+
+// Read-only accessors used by external verification harnesses.
+// Compiled only with the "verif" build tag.
+
+package vm
+
+import (
+	"github.com/skx/evalfilter/v2/environment"
+	"github.com/skx/evalfilter/v2/object"
+)
+
+// VerifBytecode returns a copy of the main program as the machine will run it.
+func (vm *VM) VerifBytecode() []byte {
+	out := make([]byte, len(vm.bytecode))
+	copy(out, vm.bytecode)
+	return out
+}
+
+// VerifConstants returns the constant pool the machine uses.
+func (vm *VM) VerifConstants() []object.Object {
+	out := make([]object.Object, len(vm.constants))
+	copy(out, vm.constants)
+	return out
+}
+
+// VerifFunctions returns a copy of the user-defined functions as the machine will run them.
+func (vm *VM) VerifFunctions() map[string]environment.UserFunction {
+	out := make(map[string]environment.UserFunction, len(vm.functions))
+	for k, v := range vm.functions {
+		b := make([]byte, len(v.Bytecode))
+		copy(b, v.Bytecode)
+		a := make([]string, len(v.Arguments))
+		copy(a, v.Arguments)
+		out[k] = environment.UserFunction{Bytecode: b, Arguments: a}
+	}
+	return out
+}
+
+// VerifStackDepth returns the number of entries left upon the value stack.
+func (vm *VM) VerifStackDepth() int {
+	return vm.stack.Size()
+}
